@@ -8,8 +8,12 @@ import Bng.Model.Rendezvous
     addpeer <i> <id>                  => ok
     removepeer <i> <id>               => ok
     sethealth <i> <id> 0|1            => ok        (verif hook: what checkPeer does after 3 failures / a success)
-    q <i> <key>                       => owner=<id> local=0|1 ranked=<id,id,…|-> howner=<id>
-    alloc <i> <key>                   => served=<id> | error     PeerPool.Allocate at pool #i (in-memory transport)
+    q <i> <key>                       => owner=<id> local=0|1 ranked=<id,id,…|-> howner=<id> addr=<id>
+                                                   (addr = getPeerAddr(howner): where a request for the healthy owner is sent)
+    alloc <i> <key>                   => served=<id> | error     PeerPool.Allocate at pool #i (in-memory transport: an
+                                                   address reaches the first pool registered under it; every pool is
+                                                   registered under its node id and under <node id>:8081)
+    churn <i> <key> <rounds> <id,id,…> => owners=<id,…> ranked=<id;id;…|id;…>   (race stress, see `churn` below)
 
   ids and keys are arbitrary byte strings written `x<hex>` (`x` alone is the empty string).
   The hash is the real one: FNV-1a 64 of key and node id, xor, the 64-bit mixer of hashCombine.
@@ -38,23 +42,40 @@ structure St where
   pools : List (Nat × Pool Bytes) := []
   abs : List (Nat × Abs) := []
   mon : Spec.Mon Bytes Bytes := {}
+  /-- per pool: PeerPool.peers as NewPeerPool left it (`cfgPeersAfterNew`) -/
+  cfg : List (Nat × PeersField Bytes) := []
+  /-- the transport: address ↦ node id of the pool that listens there (first registration wins) -/
+  reg : List (Bytes × Bytes) := []
+
+/-- the node id followed by ":8081" -/
+def withPort (b : Bytes) : Bytes := b ++ ":8081".toUTF8.toList
+
+def cfgOf (cfg : List (Nat × PeersField Bytes)) (i : Nat) (p : Pool Bytes) : List Bytes :=
+  match cfg.lookup i with
+  | some pf => peersOf pf p.nodes
+  | none => []
+
+def register (reg : List (Bytes × Bytes)) (self : Bytes) : List (Bytes × Bytes) :=
+  let r1 := if reg.any (·.1 == self) then reg else reg ++ [(self, self)]
+  if r1.any (·.1 == withPort self) then r1 else r1 ++ [(withPort self, self)]
 
 def setPool (l : List (Nat × Pool Bytes)) (i : Nat) (p : Pool Bytes) : List (Nat × Pool Bytes) :=
   (i, p) :: l.filter (fun q => q.1 != i)
 def setAbs (l : List (Nat × Abs)) (i : Nat) (a : Abs) : List (Nat × Abs) :=
   (i, a) :: l.filter (fun q => q.1 != i)
 
-/-- `owner=… local=… ranked=… howner=…` -/
-def parseAnswer (impl : String) : Option (Bytes × Bool × List Bytes × Bytes) :=
+/-- `owner=… local=… ranked=… howner=… addr=…` -/
+def parseAnswer (impl : String) : Option (Bytes × Bool × List Bytes × Bytes × Bytes) :=
   match splitTokens impl with
-  | [o, l, r, h] =>
-    match o.splitOn "=", l.splitOn "=", r.splitOn "=", h.splitOn "=" with
-    | ["owner", o], ["local", l], ["ranked", r], ["howner", h] => do
+  | [o, l, r, h, a] =>
+    match o.splitOn "=", l.splitOn "=", r.splitOn "=", h.splitOn "=", a.splitOn "=" with
+    | ["owner", o], ["local", l], ["ranked", r], ["howner", h], ["addr", a] => do
       let o ← parseId o
       let r ← parseIds r
       let h ← parseId h
-      pure (o, l == "1", r, h)
-    | _, _, _, _ => none
+      let a ← parseId a
+      pure (o, l == "1", r, h, a)
+    | _, _, _, _, _ => none
   | _ => none
 
 def mk (vs : List Spec.Verdict) : List (String × String × String) := vs.map fun (n, d) => (n, "none", d)
@@ -69,7 +90,9 @@ def step (st : St) (toks : List String) (impl : String) : St × LineResult :=
     match i.toNat?, parseId self, parseIds peers with
     | some i, some self, some peers =>
       ({ st with pools := setPool st.pools i (newPool bytesLe self peers),
-                 abs := setAbs st.abs i { self := self, set := self :: peers, unhealthy := [] } },
+                 abs := setAbs st.abs i { self := self, set := self :: peers, unhealthy := [] },
+                 cfg := (i, peersFieldNew bytesLe ([] : Bytes) self peers) :: st.cfg.filter (fun q => q.1 != i),
+                 reg := register st.reg self },
        { modelObs := "ok" })
     | _, _, _ => bad
   | [op, i, x] =>
@@ -79,26 +102,32 @@ def step (st : St) (toks : List String) (impl : String) : St × LineResult :=
       | some p, some a =>
         if op == "addpeer" then
           ({ st with pools := setPool st.pools i (addPeer bytesLe p x),
+                     cfg := st.cfg.map (fun q => if q.1 == i then (i, peersFieldAdd q.2 p.nodes x) else q),
                      abs := setAbs st.abs i { a with set := x :: a.set } }, { modelObs := "ok" })
         else if op == "removepeer" then
           ({ st with pools := setPool st.pools i (removePeer p x),
+                     cfg := st.cfg.map (fun q => if q.1 == i then (i, peersFieldRemove q.2 p.nodes x) else q),
                      abs := setAbs st.abs i { a with set := a.set.filter (fun y => y != x) } }, { modelObs := "ok" })
         else if op == "q" then
           let o := getOwner ([] : Bytes) score p x
           let l := isLocalOwner ([] : Bytes) score p x
           let r := rankedOf score p x
           let h := getHealthyOwner score p x
-          let shown := s!"owner={showId o} local={if l then "1" else "0"} ranked={showIds r} howner={showId h}"
+          let ad := peerAddr withPort (cfgOf st.cfg i p) h
+          let shown := s!"owner={showId o} local={if l then "1" else "0"} ranked={showIds r} howner={showId h} addr={showId ad}"
           match parseAnswer impl with
-          | some (io, il, ir, ih) =>
+          | some (io, il, ir, ih, ia) =>
             let (S, U) := viewOf a
             let (mon', vs) := Spec.checkQuery bytesLe st.mon a.self S U x io il ir ih
-            ({ st with mon := mon' }, { modelObs := shown, viols := mk vs })
+            -- a forwarded request must be addressed to the node it is meant for: its id, or its id with the port
+            let va := if ia == ih || ia == withPort ih then [] else
+              [("addr", "none", s!"a request for {showId ih} is sent to {showId ia}, which names another node")]
+            ({ st with mon := mon' }, { modelObs := shown, viols := mk vs ++ va })
           | none => (st, { modelObs := shown })
         else if op == "alloc" then
-          let h := servedBy score p x
-          let reachable := h == p.self || st.pools.any (fun q => q.2.self == h)
-          let shown := if reachable then s!"served={showId h}" else "error"
+          let shown := match servedVia withPort (fun ad => st.reg.lookup ad) (cfgOf st.cfg i p) score p x with
+            | some n => s!"served={showId n}"
+            | none => "error"
           match (impl.splitOn "=") with
           | ["served", v] => match parseId v with
             | some v =>
@@ -111,6 +140,42 @@ def step (st : St) (toks : List String) (impl : String) : St × LineResult :=
         else bad
       | _, _ => bad
     | _, _ => bad
+  | ["churn", i, k, _rounds, victims] =>
+    -- race stress: while a writer removed and re-added each victim, readers saw these owners / serving nodes / ranked lists;
+    -- each must be the model's answer for one of the memberships the writer went through
+    match i.toNat?, parseId k, parseIds victims with
+    | some i, some k, some vs =>
+      match st.pools.lookup i with
+      | some p =>
+        let members := p :: vs.map (fun v => removePeer p v)
+        let cfgP := cfgOf st.cfg i p
+        let okOwners := members.flatMap fun m =>
+          [getOwner ([] : Bytes) score m k, getHealthyOwner score m k] ++
+            (match servedVia withPort (fun ad => st.reg.lookup ad) cfgP score m k with | some n => [n] | none => [])
+        let okRanked := members.map fun m => rankedOf score m k
+        let p' := vs.foldl (fun q v => addPeer bytesLe (removePeer q v) v) p
+        let pf' := vs.foldl (fun (acc : PeersField Bytes × Pool Bytes) v =>
+          let q1 := removePeer acc.2 v
+          (peersFieldAdd (peersFieldRemove acc.1 acc.2.nodes v) q1.nodes v, addPeer bytesLe q1 v))
+          ((st.cfg.lookup i).getD { frozen := [], tail := none }, p)
+        let st' := { st with pools := setPool st.pools i p',
+                             cfg := st.cfg.map (fun q => if q.1 == i then (i, pf'.1) else q) }
+        let field := fun (key : String) => ((splitTokens impl).filterMap fun t =>
+          if t.startsWith key then some (t.drop key.length).toString else none).head?
+        match field "owners=" >>= parseIds, field "ranked=" with
+        | some seen, some rk =>
+          let lists := (rk.splitOn "|").map fun l => parseIds (l.replace ";" ",")
+          let v1 := seen.filterMap fun o => if okOwners.contains o then none else
+            some ("churn", "none", s!"a reader was given owner {showId o}, the owner under no membership the writer went through")
+          let v2 := lists.filterMap fun l => match l with
+            | some l => if okRanked.contains l then none else
+                some ("churn", "none", s!"a reader ranked over {showIds l}: the ranking of no membership the writer went through")
+            | none => some ("churn", "none", "unreadable ranked list")
+          let vs' := v1 ++ v2
+          (st', { modelObs := if vs'.isEmpty then impl else s!"owners within {showIds okOwners.eraseDups}", viols := vs' })
+        | _, _ => (st', { modelObs := "owners=… ranked=…" })
+      | none => bad
+    | _, _, _ => bad
   | ["sethealth", i, x, b] =>
     match i.toNat?, parseId x with
     | some i, some x =>
